@@ -167,3 +167,71 @@ func forwardedApply(c *common.Ctx, r *common.Rand, wal bool) error {
 	}
 	return nil
 }
+
+// recreatedAfterDrop: a WAL-mode database is dropped and created again under the same name. The new database is in
+// rollback-journal mode until its first transaction says otherwise, so LiteFS's own write lock has to be the
+// rollback-journal one: it must not be granted while the first writer holds SHARED + RESERVED.
+func recreatedAfterDrop(c *common.Ctx, r *common.Rand) error {
+	dir, err := os.MkdirTemp(c.OutDir, "c11r-")
+	if err != nil {
+		return err
+	}
+	defer os.RemoveAll(dir)
+	n, err := lfs.Open(dir, true)
+	if err != nil {
+		return err
+	}
+	defer n.Close()
+	h := hist.NewOn(c, r.Fork(), hist.Config{PageSize: 512, AllowWAL: true, ForceWAL: true}, n.Store, n.Exits, "db", nil, 0, false)
+	for done, tries := 0, 0; done < 3 && tries < 300; tries++ {
+		st := h.GenStep()
+		if st.Op != "rtx" && st.Op != "wtx" {
+			continue
+		}
+		if st.Op == "rtx" {
+			st.Outcome = 0
+		}
+		if ob := h.Exec(st); ob.Captured && ob.Err == "" {
+			done++
+		}
+	}
+	if !h.WALMode {
+		return fmt.Errorf("the database did not reach WAL mode")
+	}
+	if ob := h.Exec(hist.Step{Op: "drop"}); ob.Err != "" || ob.Panic != "" {
+		return fmt.Errorf("drop: %s%s", ob.Err, ob.Panic)
+	}
+	db, f, err := n.Store.CreateDB("db")
+	if err != nil {
+		return fmt.Errorf("recreate: %v", err)
+	}
+	_ = f.Close()
+	bg := context.Background()
+	const owner = 31
+	c.Evaluations++
+	c.Distinct("recreated-after-drop")
+	rep := map[string]any{"kind": "recreated-after-drop"}
+	// the first writer of the new database, SQLite's rollback-journal protocol: SHARED, then RESERVED
+	if !db.TryRLocks(bg, owner, []litefs.LockType{litefs.LockTypePending}) || !db.TryRLocks(bg, owner, []litefs.LockType{litefs.LockTypeShared}) {
+		return fmt.Errorf("first writer: shared lock refused")
+	}
+	_ = db.Unlock(bg, owner, []litefs.LockType{litefs.LockTypePending})
+	if ok, err := db.TryLocks(bg, owner, []litefs.LockType{litefs.LockTypeReserved}); err != nil || !ok {
+		return fmt.Errorf("first writer: reserved lock refused (%v)", err)
+	}
+	if gs := db.TryAcquireWriteLock(); gs != nil {
+		gs.Unlock()
+		c.Violate("C11:recreated-after-drop:granted", "a WAL-mode database was dropped and created again; while the new database's first writer holds SHARED and RESERVED, LiteFS's own write lock is granted", rep)
+	}
+	_ = db.Unlock(bg, owner, []litefs.LockType{litefs.LockTypeReserved, litefs.LockTypeShared})
+	// and with only a reader
+	if db.TryRLocks(bg, owner, []litefs.LockType{litefs.LockTypeShared}) {
+		c.Evaluations++
+		if gs := db.TryAcquireWriteLock(); gs != nil {
+			gs.Unlock()
+			c.Violate("C11:recreated-after-drop:granted-over-reader", "a WAL-mode database was dropped and created again; while a connection holds SHARED on the new (rollback-journal) database, LiteFS's own write lock is granted", rep)
+		}
+		_ = db.Unlock(bg, owner, []litefs.LockType{litefs.LockTypeShared})
+	}
+	return nil
+}
